@@ -207,7 +207,76 @@ def history(tid, rng, steps):
     return {"tid": tid, "meta": {"kind": "lib-history"}, "init": init, "events": events}
 
 
+def rewrite_trace(tid, rng):
+    """Every rewrite applied systematically to one random circuit (with adjacent wrappers / gates / identities), also in
+    sequences (group, add a gate, group again; unwrap then group; group then unwrap)."""
+    wrappers = cz.library_wrappers()
+    n_e, n_p = rng.choice([(1, 1), (2, 1), (1, 2)])
+    regs = [["e", i] for i in range(n_e)] + [["p", i] for i in range(n_p)]
+    prog = []
+    for _ in range(rng.randint(3, 10)):
+        r = rng.random()
+        if r < 0.35:
+            prog.append({"k": "OneQubitGateWrapper", "r": [rng.choice(regs)], "c": None, "w": rng.choice(wrappers)})
+        elif r < 0.7:
+            prog.append({"k": rng.choice(cz.ONEQ), "r": [rng.choice(regs)], "c": None})
+        elif r < 0.9:
+            a = ["e", rng.randrange(n_e)]           # controls are emitters: the domain of the noise maps
+            b = rng.choice([x for x in regs if x != a])
+            prog.append({"k": rng.choice(cz.TWOQ), "r": [a, b], "c": None})
+        else:
+            prog.append({"k": "MeasurementZ", "r": [rng.choice(regs)], "c": 0})
+    objs = {"1": cz.build_circuit(n_e, n_p, 1, prog)}
+    init = {"1": beh(objs["1"])}
+    events = []
+    nxt = [1]
+
+    def step(ev, src, f, ret_new):
+        e = {"ev": ev, "args": [src], "ret": "", "err": "", "forced": False}
+        try:
+            with warnings.catch_warnings():
+                warnings.simplefilter("ignore")
+                out = f(objs[src])
+            if ret_new:
+                nxt[0] += 1
+                objs[str(nxt[0])] = out
+                e["ret"] = str(nxt[0])
+        except Exception as ex:
+            e["err"] = type(ex).__name__
+        e["objs"] = {k: beh(v) for k, v in objs.items()}
+        events.append(e)
+        return e["ret"]
+
+    full, empty = noise_maps()
+    c2 = step("copy", "1", lambda c: c.copy(), True)
+    step("group", c2, lambda c: c.group_one_qubit_gates(), False)
+    # add a one-qubit gate after grouping (a new object: the call is 'copy' of the edited circuit), then group again
+    def add_gate(c):
+        d = c.copy()
+        d.add(cz.build_op({"k": rng.choice(["Hadamard", "Phase", "SigmaX"]), "r": [rng.choice(regs)], "c": None}))
+        return d
+    try:
+        nxt[0] += 1
+        objs[str(nxt[0])] = add_gate(objs[c2])
+        c3 = str(nxt[0])
+        events.append({"ev": "forget", "args": [], "ret": "", "err": "", "forced": False,
+                       "objs": {k: beh(v) for k, v in objs.items()}})
+        step("group", c3, lambda c: c.group_one_qubit_gates(), False)
+        step("unwrap", c3, lambda c: c.unwrap_nodes(), False)
+    except Exception:
+        pass
+    c4 = step("copy", "1", lambda c: c.copy(), True)
+    step("unwrap", c4, lambda c: c.unwrap_nodes(), False)
+    step("group", c4, lambda c: c.group_one_qubit_gates(), False)
+    step("rm_identity", c4, lambda c: c.remove_identity(), False)
+    c5 = step("copy", "1", lambda c: c.copy(), True)
+    step("rm_identity", c5, lambda c: c.remove_identity(), False)
+    step("assign_noise_empty", "1", lambda c: c.assign_noise(empty), True)
+    return {"tid": tid, "meta": {"kind": "rewrites", "program": prog}, "init": init, "events": events}
+
+
 def run(ctx):
     rng = ctx.rng
-    traces = [history(i + 1, rng, 25 if ctx.quick else 60) for i in range(16 if ctx.quick else 400)]
+    traces = [history(i + 1, rng, 25 if ctx.quick else 60) for i in range(12 if ctx.quick else 400)]
+    traces += [rewrite_trace(10000 + i, rng) for i in range(40 if ctx.quick else 1500)]
     ctx.judge("Trace_Lib", traces, label="J: API-call interleavings with the behaviour of every live object", xmx="4g")
